@@ -28,9 +28,9 @@ KANI_DIR = os.path.join(VERIF, "kani")
 # injected file -> (destination inside the scratch crate, file that declares it, declaration)
 INJECT = {
     "verif_repr.rs": ("src/repr/verif_repr.rs", "src/repr.rs", "#[cfg(kani)]\npub(crate) mod verif_repr;\n", "repr::verif_repr"),
-    "verif_ops.rs": ("src/repr/verif_ops.rs", "src/repr.rs", "#[cfg(kani)]\nmod verif_ops;\n", "repr::verif_ops"),
-    "verif_edit.rs": ("src/repr/verif_edit.rs", "src/repr.rs", "#[cfg(kani)]\nmod verif_edit;\n", "repr::verif_edit"),
-    "verif_mod.rs": ("src/repr/verif_mod.rs", "src/repr.rs", "#[cfg(kani)]\nmod verif_mod;\n", "repr::verif_mod"),
+    "verif_ops.rs": ("src/repr/verif_ops.rs", "src/repr.rs", "#[cfg(kani)]\npub(crate) mod verif_ops;\n", "repr::verif_ops"),
+    "verif_edit.rs": ("src/repr/verif_edit.rs", "src/repr.rs", "#[cfg(kani)]\npub(crate) mod verif_edit;\n", "repr::verif_edit"),
+    "verif_mod.rs": ("src/repr/verif_mod.rs", "src/repr.rs", "#[cfg(kani)]\npub(crate) mod verif_mod;\n", "repr::verif_mod"),
     "verif_hb.rs": ("src/repr/heap_buffer/verif_hb.rs", "src/repr/heap_buffer.rs", "#[cfg(kani)]\nmod verif_hb;\n", "repr::heap_buffer::verif_hb"),
     "verif_num.rs": ("src/repr/num_to_repr/verif_num.rs", "src/repr/num_to_repr.rs", "#[cfg(kani)]\nmod verif_num;\n", "repr::num_to_repr::verif_num"),
     "verif_lib.rs": ("src/verif_lib.rs", "src/lib.rs", "#[cfg(kani)]\nmod verif_lib;\n", "verif_lib"),
@@ -209,7 +209,7 @@ class Scratch:
 # ----------------------------------------------------------------------------------------
 
 CHECK_RE = re.compile(
-    r"^Check (\d+): (\S+)\n\t - Status: (\w+)\n\t - Description: \"(.*)\"\n\t - Location: (.*)$", re.M
+    r"^Check (\d+): (.+)\n\t - Status: (\w+)\n\t - Description: \"(.*)\"\n\t - Location: (.*)$", re.M
 )
 
 
